@@ -219,14 +219,14 @@ def _replay(ob, seed):
 REPLAYERS = {"verif:contracts/C11_memo.py:encode3": _replay}
 
 CANARIES = [
-    dict(name="encoder memo keyed by hash(o)", file=F,
+    dict(name="encoder memo keyed by hash(o)", file=F, function="verif:contracts/C11_memo.py:encode3",
          find="                if ref := self._memo.get(o):\n                    return ref\n                key = len(self._memo)\n                ref = {\"cirq_type\": \"REF\", \"key\": key}\n                self._memo[o] = ref",
          replace="                if ref := self._memo.get(hash(o)):\n                    return ref\n                key = len(self._memo)\n                ref = {\"cirq_type\": \"REF\", \"key\": key}\n                self._memo[hash(o)] = ref"),
-    dict(name="encoder memo keyed by id(o)", file=F,
+    dict(name="encoder memo keyed by id(o)", file=F, function="verif:contracts/C11_memo.py:encode3",
          find="                if ref := self._memo.get(o):\n                    return ref\n                key = len(self._memo)\n                ref = {\"cirq_type\": \"REF\", \"key\": key}\n                self._memo[o] = ref",
          replace="                if ref := self._memo.get(oid):\n                    return ref\n                key = len(self._memo)\n                ref = {\"cirq_type\": \"REF\", \"key\": key}\n                self._memo[oid] = ref"),
-    dict(name="decoder returns the last VAL for every REF", file=F,
-         find="        if cirq_type == 'REF':\n            return self.memo[d['key']]", replace="        if cirq_type == 'REF':\n            return list(self.memo.items_)[-1][1] if hasattr(self.memo, 'items_') else self.memo[max(self.memo)]"),
+    dict(name="decoder stores every VAL under key 0", file=F, function="verif:contracts/C11_memo.py:decode3",
+         find="            self.memo[d['key']] = obj", replace="            self.memo[0] = obj"),
 ]
 NOT_COVERED = ["histories longer than three calls; the _cache fast path beyond what three calls reach; nesting (a VAL inside a VAL) is the json module's traversal order, not modelled"]
 ASSUMPTIONS = ["an id() value identifies one object while a document is being written (the id-keyed _cache does not keep its referents alive itself)",
